@@ -38,7 +38,7 @@ type Call struct {
 }
 
 var callNames = []string{"m.String", "m.WriteTo", "f.LLString", "b.LLString", "inst.LLString", "v.String", "v.Ident", "v.Type", "g.LLString", "f.String+Ident+Type", "term.LLString",
-	"metadata def Ident+LLString", "alias/ifunc LLString", "typedef String+LLString", "operands String", "param LLString", "named metadata LLString", "m.WriteTo(plain io.Writer)"}
+	"metadata def Ident+LLString", "alias/ifunc LLString", "typedef String+LLString", "operands String", "param LLString", "named metadata LLString", "m.WriteTo(plain io.Writer)", "m.WriteTo(writer that stalls until the other printers are done)"}
 
 func (c Call) String() string {
 	return fmt.Sprintf("%s(%d,%d,%d)", callNames[c.K%len(callNames)], c.A, c.B, c.C)
@@ -150,6 +150,17 @@ func doCall(m *ir.Module, c Call) (string, bool) {
 		if f := fn(); f != nil && len(f.Params) > 0 {
 			return f.Params[c.B%len(f.Params)].LLString(), true
 		}
+	case 18:
+		// A writer that, at one of its Write calls, does not return before the
+		// printers of the other tasks have finished (a pipe whose reader is busy
+		// printing the same module, a logger behind the same service): no printer
+		// may hold a lock the others need while it is inside Write.
+		w := &stallWriter{at: c.B % 40}
+		if c.A%2 == 1 {
+			w.at = c.B % 400
+		}
+		n, err := m.WriteTo(w)
+		return fmt.Sprintf("n=%d err=%v\n%s", n, err, w.b.String()), true
 	case 17:
 		// A writer that is nothing but an io.Writer (not *bytes.Buffer,
 		// *strings.Builder, *bufio.Writer, *os.File).
@@ -169,6 +180,25 @@ func doCall(m *ir.Module, c Call) (string, bool) {
 	}
 	return "", false
 }
+
+// stallWriter blocks in its at-th Write until c13Gate is closed (nil gate: never
+// blocks; that is how the sequential reference runs it).
+type stallWriter struct {
+	b     strings.Builder
+	at    int
+	calls int
+}
+
+func (w *stallWriter) Write(p []byte) (int, error) {
+	if w.calls == w.at && c13Gate != nil {
+		simrt.Recv(-1, (<-chan struct{})(c13Gate))
+	}
+	w.calls++
+	return w.b.Write(p)
+}
+
+// c13Gate is closed when every task without a stalling writer has finished.
+var c13Gate chan struct{}
 
 type plainWriter struct{ b strings.Builder }
 
@@ -230,6 +260,11 @@ func staleEdit(m *ir.Module) {
 				}
 			}
 		}
+	}
+	// An optional field assigned after construction (the cached pointer type of
+	// the global keeps the address space it had when it was computed).
+	if n := len(m.Globals); n > 0 {
+		m.Globals[n-1].AddrSpace = 3
 	}
 	g := ir.NewGlobalDef("", constant.NewInt(types.I32, 42))
 	m.Globals = append([]*ir.Global{g}, m.Globals...)
@@ -325,6 +360,27 @@ func c13Run(sc *C13Scenario) *c13Outcome {
 	}
 	got := make([][]string, len(sc.Tasks))
 	fns := make([]func(), len(sc.Tasks))
+	// Stalling writers wait for the tasks that have none.
+	var free int64
+	stalls := func(calls []Call) bool {
+		for _, c := range calls {
+			if c.K%len(callNames) == 18 {
+				return true
+			}
+		}
+		return false
+	}
+	for _, calls := range sc.Tasks {
+		if !stalls(calls) {
+			free++
+		}
+	}
+	c13Gate = nil
+	if free > 0 && free < int64(len(sc.Tasks)) {
+		c13Gate = make(chan struct{})
+	}
+	gate := c13Gate
+	defer func() { c13Gate = nil }()
 	for i := range sc.Tasks {
 		i := i
 		calls := sc.Tasks[i]
@@ -333,6 +389,11 @@ func c13Run(sc *C13Scenario) *c13Outcome {
 			for j, c := range calls {
 				s, _ := doCall(m, c)
 				got[i][j] = s
+			}
+			if gate != nil && !stalls(calls) {
+				if simrt.SharedAdd(&free, -1) == 0 {
+					simrt.Close(-1, (chan<- struct{})(gate))
+				}
 			}
 		}
 	}
@@ -358,6 +419,7 @@ func c13Run(sc *C13Scenario) *c13Outcome {
 		return out
 	}
 	// Reference: the same calls, sequentially, on the twin in the same start state.
+	c13Gate = nil
 	expected := make([][]string, len(sc.Tasks))
 	applies := make([][]bool, len(sc.Tasks))
 	simrt.Load((&Tape{}).config())
@@ -416,6 +478,27 @@ func c13Run(sc *C13Scenario) *c13Outcome {
 				out.class = "text"
 				out.sig = callNames[sc.Tasks[i][j].K%len(callNames)]
 				out.detail = fmt.Sprintf("task %d call %d %s returned text that differs from the sequential call on the twin: %s", i, j, sc.Tasks[i][j], firstDiff(got[i][j], expected[i][j]))
+				return out
+			}
+		}
+	}
+	// Aftermath: what concurrent printers leave behind in the module must be what
+	// sequential printers leave behind: extend both modules the same way and
+	// print them sequentially.
+	{
+		var aft, aftTwin string
+		simrt.Load((&Tape{}).config())
+		panT, _ := protect(func() { simCall(func() { staleEdit(twin); aftTwin = twin.String() }) })
+		if !panT {
+			panM, msg := protect(func() { simCall(func() { staleEdit(m); aft = m.String() }) })
+			if panM {
+				out.class, out.sig = "panic", "print after an edit that follows the concurrent prints: "+normDigits(clip(msg, 120))
+				out.detail = "after the concurrent prints the module was extended and printed sequentially; that print panics, the same steps on the sequentially printed twin do not: " + msg
+				return out
+			}
+			if aft != aftTwin {
+				out.class, out.sig = "text", "print after an edit that follows the concurrent prints"
+				out.detail = "after the concurrent prints the module was extended (unnamed global in front, values named/un-named) and printed sequentially: the text differs from the same steps on the sequentially printed twin: " + firstDiff(aft, aftTwin)
 				return out
 			}
 		}
@@ -574,6 +657,19 @@ func c13GenScenario(r *rng, srcs []*moduleSource) *C13Scenario {
 			}
 			sc.Tasks = append(sc.Tasks, mine)
 		}
+	}
+	moduleOnly := true
+	for _, t := range sc.Tasks {
+		for _, c := range t {
+			if k := c.K % len(callNames); k != 0 && k != 1 && k != 17 {
+				moduleOnly = false
+			}
+		}
+	}
+	if r.chance(1, 6) && len(sc.Tasks) >= 2 && (moduleOnly || sc.Start == "printed") {
+		// One printer writes into a writer that stalls, at one of its Write calls,
+		// until the other printers are done (same receiver: the module).
+		sc.Tasks[0] = []Call{{K: 18, A: r.intn(2), B: r.intn(400)}}
 	}
 	sc.Tape = genTape(r, TapeParams{NSched: 2048, MeanGap: gapChoices[r.intn(len(gapChoices))], EdgePct: edgeChoices[r.intn(len(edgeChoices))], EarlyPct: 50, NPool: 512})
 	sc.Tape.StepCap = 20000000
